@@ -107,6 +107,9 @@ func writeEvidence(prop, tier string, seed uint64, tc tierCfg, a *agg, buildS, e
 		"written_at": time.Now().UTC().Format(time.RFC3339),
 	}
 	b, _ := json.MarshalIndent(ev, "", " ")
+	if os.Getenv("VERIF_NOEVIDENCE") != "" {
+		return // runs against a seeded change: the committed evidence describes the unchanged tree
+	}
 	os.MkdirAll(filepath.Join(verifDir, "evidence"), 0o755)
 	if err := os.WriteFile(filepath.Join(verifDir, "evidence", prop+".json"), b, 0o644); err != nil {
 		infra("writing evidence: %v", err)
